@@ -442,7 +442,10 @@ def render_block(b, line0: int):
         for k, (term, defs) in enumerate(b["items"]):
             if k:
                 out.append("")
-            out.append(render_inline(term).replace("\n", " "))
+            term_line = render_inline(term).replace("\n", " ")
+            if term_line[:1] in "#>-+*=|:" or term_line[:3] in ("```", "~~~"):
+                term_line = "\\" + term_line   # keep the term from being read as another block construct (e.g. a fence)
+            out.append(term_line)
             inner = render_blocks(defs, line0 + len(out))
             out.extend((": " + ln) if j == 0 else (("  " + ln) if ln else "") for j, ln in enumerate(inner))
         return out
